@@ -336,7 +336,7 @@ func judgeOrder(c *OrderCase, reps int) (sig, detail string) {
 }
 
 func TestEvaluationOrder(t *testing.T) {
-	vt.Check(t, vt.N(4000, 80000), func(rt *rapid.T) {
+	vt.Check(t, vt.N(4000, 250000), func(rt *rapid.T) {
 		g := &gen{t: rt, kinds: map[string]bool{}, breaks: rapid.Bool().Draw(rt, "linebreaks")}
 		ty := rapid.SampledFrom([]string{"int", "int", "arr", "obj", "map", "str", "range"}).Draw(rt, "type")
 		src := g.expr(ty, rapid.IntRange(1, 3).Draw(rt, "depth"))
@@ -577,7 +577,7 @@ func judgeRepro(cases []ReproCase, inproc, procs int, record func(sig, detail st
 
 func TestReproducibilityGenerated(t *testing.T) {
 	vt.SkipIfReplay(t)
-	n := vt.N(640, 12000)
+	n := vt.N(640, 24000)
 	var cases []ReproCase
 	// generation goes through rapid so that the programs are a function of the seed
 	vt.Check(t, n, func(rt *rapid.T) {
